@@ -142,7 +142,9 @@ CLAIMED = {
  "C08": dict(
    technique="inductive transducer check of the decimal formatter on its MIR: path summary of the long-division generator step, "
              "summary of the value split and form dispatch, per-form prologue / arbitrary loop turn / epilogue with an output-atom log, "
-             "bisimulation of the small-fraction loop with a reference machine, semantic (grid) comparison of summary terms",
+             "bisimulation of the small-fraction loop with a reference machine, semantic (grid) comparison of summary terms; "
+             "form-independent bounded path summaries of each of the three forms (constant limits, symbolic digits and generator) "
+             "that decide the form where the inductive check cannot recognise the loop layout",
    text="Decides the structural and per-step facts faithfulness rests on, for all values, limits and thresholds at once: the digit "
         "generator performs exactly the long-division step (digit floor(10R/D), remainder 10R - D floor(10R/D), end iff R = 0); the "
         "value is split into sign, whole = floor(|n|/|d|), remainder and |d| and each form receives them in the positions in which it "
